@@ -625,7 +625,9 @@ pub fn run_check(check: &dyn Check, tier: Tier, seed: u64, runs_override: Option
 }
 
 fn write_evidence(check: &dyn Check, tier: Tier, seed: u64, agg: &Agg, wall: f64, known: &Known) {
-    let dir = verif_dir().join("evidence");
+    // VERIF_EVIDENCE_DIR: used by tools/seeded.sh so that runs against a
+    // deliberately broken tree do not overwrite the evidence of the real one.
+    let dir = std::env::var("VERIF_EVIDENCE_DIR").map(std::path::PathBuf::from).unwrap_or_else(|_| verif_dir().join("evidence"));
     let _ = std::fs::create_dir_all(&dir);
     let (faults, probes): (BTreeMap<_, _>, BTreeMap<_, _>) = {
         let mut f = BTreeMap::new();
